@@ -58,6 +58,17 @@ class SymZip:
         return [tuple(out)]
 
 
+class CallableObj(Obj):
+    """A model object that is also callable (a class with class attributes, e.g. inspect.Parameter)."""
+
+    def __init__(self, tag, fn, **attrs):
+        super().__init__(tag, **attrs)
+        self.fn = fn
+
+    def __call__(self, *args, **kwargs):
+        return self.fn(*args, **kwargs)
+
+
 class Call:
     """Result of calling an opaque function (evaluate_tensora)."""
 
@@ -193,6 +204,8 @@ class Evaluator:
                 return ("boundmethod", v, m)
             if isinstance(v, Obj) and v.tag == "Class" and v.attrs.get("name") == "Tensor" and e.attr == "from_lol":
                 return ("builtin", "Tensor.from_lol")
+            if isinstance(v, ast.FunctionDef) and e.attr == "__wrapped__":
+                return v  # decorators (lru_cache, wraps) do not change what the function computes
             if isinstance(v, str) and e.attr == "join":
                 return ("strjoin", v)
             if isinstance(v, dict) and e.attr in ("keys", "values", "items", "get", "setdefault", "pop", "update", "copy"):
@@ -421,6 +434,8 @@ class Evaluator:
                 return {ast.Lt: l < r, ast.LtE: l <= r, ast.Gt: l > r, ast.GtE: l >= r}[type(op)]
             if isinstance(op, (ast.Is, ast.IsNot)):
                 same = l is r
+                if isinstance(l, Obj) and isinstance(r, Obj) and l.tag == r.tag == "Class":
+                    same = l.attrs.get("name") == r.attrs.get("name")
                 return same if isinstance(op, ast.Is) else not same
             raise Uninterpretable(f"compare {ast.unparse(e)}")
         if isinstance(e, ast.IfExp):
@@ -796,6 +811,22 @@ class Evaluator:
             if len(pat.patterns) != len(subject):
                 return False
             return all(self.match_pattern(p_, x, env) for p_, x in zip(pat.patterns, subject))
+        if isinstance(pat, ast.MatchClass) and (pat.patterns or pat.kwd_patterns):
+            cname = ast.unparse(pat.cls).split(".")[-1]
+            if not isinstance(subject, Obj):
+                return False
+            if not (subject.tag == cname or cname in subject.attrs.get("__bases__", ())):
+                return False
+            margs = subject.attrs.get("__match_args__")
+            if pat.patterns and (margs is None or len(pat.patterns) > len(margs)):
+                raise Uninterpretable(f"match pattern {ast.unparse(pat)}: positional fields of {cname} unknown")
+            for p_, field in zip(pat.patterns, margs or ()):
+                if not self.match_pattern(p_, subject.attrs[field], env):
+                    return False
+            for field, p_ in zip(pat.kwd_attrs, pat.kwd_patterns):
+                if field not in subject.attrs or not self.match_pattern(p_, subject.attrs[field], env):
+                    return False
+            return True
         if isinstance(pat, ast.MatchClass) and not pat.patterns and not pat.kwd_patterns:
             cname = ast.unparse(pat.cls).split(".")[-1]
             if cname in ("int", "float", "str", "bool"):
